@@ -176,7 +176,7 @@ def run(ctx):
         ctx.violation("spec:%s" % (v["name"] or v["kind"]), "Multiproc.tla itself violates %s %s" % (v["kind"], v["name"]), v["trace"][:80])
     # ---- 2. real code on the virtual layer -> traces -> TLC ----
     cs = configs(rng, ctx.tier)
-    per_rand = ctx.pick(3, 25); per_dfs = ctx.pick(4, 60)
+    per_rand = ctx.pick(3, 10); per_dfs = ctx.pick(4, 25)      # thorough: 385 configurations x 35 schedules (25 + 60 did not finish within 65 min on a busy machine)
     traces = []; meta = []
     def record(res, cfg, how):
         ctx.case(json.dumps([res["trace"]["cfg"], [(e["r"], e["w"], e["e"], e["x"]) for e in res["trace"]["ev"]]]))
